@@ -151,6 +151,18 @@ def work_c(T):
     return vio, n, 0
 
 
+def apply_mut(st, m):
+    if m[0] != 'Leaf':
+        return impl.apply(st, m)
+    from mc.checks.C14 import attr_info_for
+    leaf = st.made[m[1]]
+    an, v1, v2 = attr_info_for(leaf.name)
+    if an is not None:
+        return impl.call(setattr, leaf, an.replace('-', '_'), v1)
+    # no attribute to set: give the leaf a child of its own (leaves are unchecked instances)
+    return impl.call(leaf.add_child, impl.child('fifths'))
+
+
 def work_nested(arg):
     """(d) purity in nested trees: W (unchecked wrapper) > Q (checked, type T) > opaque children.  For every word w
     (length <= 2 over the reduced alphabet) and every single mutation m of Q (remove each child, add each of the first
@@ -180,9 +192,11 @@ def work_nested(arg):
         muts = [('R', i) for i in st0.model] + [('A', a) for a in sigma[:3]]
         if st0.model:
             muts.append(('P', st0.model[0], st0.made[st0.model[0]].name))
+            # third level: change the first leaf itself (an attribute or its value); W and Q stay untouched
+            muts.append(('Leaf', st0.model[0]))
         for m in muts:
             Wb, stb = make(w)
-            ob = impl.apply(stb, m)
+            ob = apply_mut(stb, m)
             want = impl.serialise(Wb)
             for who in ('wrapper', 'element', 'leaf'):
                 if who == 'leaf' and not st0.model:
@@ -190,7 +204,7 @@ def work_nested(arg):
                 Wa, sta = make(w)
                 tgt = Wa if who == 'wrapper' else (sta.el if who == 'element' else sta.made[sta.model[0]])
                 impl.call(tgt.to_string)
-                oa = impl.apply(sta, m)
+                oa = apply_mut(sta, m)
                 got = impl.serialise(Wa)
                 n += 1
                 if oa.ok != ob.ok or got[:2] != want[:2]:
